@@ -865,7 +865,8 @@ func (e *env) gov(out *hx.Out, n, failIdx int, failKind string) {
 		nb.MaxGas = 400_000 // keeps the out-of-gas contract short
 		cp.Block = &nb
 		ectx = ectx.WithConsensusParams(cp)
-		if err := fxgov.EndBlocker(ectx, gk); err != nil {
+		if res := hx.Try(func() error { return fxgov.EndBlocker(ectx, gk) }); res != "ok" {
+			lastReason = "EndBlocker: " + firstLine(res)
 			return nil, 0, false
 		}
 		p3, err := gk.Keeper.Proposals.Get(ctx, p.Id)
@@ -950,6 +951,10 @@ func (e *env) gov(out *hx.Out, n, failIdx int, failKind string) {
 		s.Ctx = bctx
 		db, sb, okB := build(bctx, []sdk.Msg{send(1_000_000_000_000, false)})
 		s.Ctx = saved
+		if !okA && strings.HasPrefix(reasonA, "EndBlocker: ") {
+			out.Violate(fmt.Sprintf("gov: message %d of %d failed (%s) and the failure was not tolerated, %s", failIdx+1, n, failKind, reasonA))
+			return
+		}
 		if !okA || !okB {
 			out.Count("gov:setup-failed")
 			return
